@@ -187,6 +187,38 @@ def _anc(n):
         p = parent(p)
 
 
+def rule_reduced_reference(ctx: Ctx) -> None:
+    """fid.reduced-reference: inner_product maps state 1 to |0...0> with inverse_circuit and applies the same circuit to state 2; the overlap
+    is then read off state 2 against the *reduced* state 1 (all +Z).  The matrices and signs of "state 1" used after that point are those of
+    the tableau inverse_circuit returned (first element of its result), not of the input generators: against the input, the test for
+    orthogonality compares signs of unrelated generators."""
+    repo = ctx.repo
+    m = repo.module(METRIC)
+    fn = repo.anchor(METRIC, "inner_product")
+    ctx.touch(m, fn)
+    inv = [a for a in ast.walk(fn) if isinstance(a, ast.Assign) and isinstance(a.value, ast.Call) and (call_attr(a.value) or getattr(a.value.func, "id", "")) == "inverse_circuit"]
+    if len(inv) != 1 or not isinstance(inv[0].targets[0], ast.Tuple) or len(inv[0].targets[0].elts) != 2:
+        raise AnalysisError("inner_product: `<reduced>, <circuit> = inverse_circuit(...)` not found")
+    red = inv[0].targets[0].elts[0]
+    reads = [a for a in ast.walk(fn) if isinstance(a, ast.Assign) and isinstance(a.value, ast.Attribute) and a.value.attr in ("x_matrix", "z_matrix", "phase")
+             and isinstance(a.value.value, ast.Name) and a.lineno > inv[0].lineno]
+    arg = inv[0].value.args[0] if inv[0].value.args else None
+    argname = arg.id if isinstance(arg, ast.Name) else (arg.func.value.id if isinstance(arg, ast.Call) and isinstance(arg.func, ast.Attribute) and isinstance(arg.func.value, ast.Name) else None)
+    # reads of "state 1" = reads from the reduced name or from the name handed to inverse_circuit
+    first = [a for a in reads if a.value.value.id in ({norm(red)} | ({argname} if argname else set()))]
+    if not first:
+        raise AnalysisError("inner_product: the reads of the first state's matrices after inverse_circuit were not found")
+    stale = [a for a in first if not isinstance(red, ast.Name) or red.id == "_" or a.value.value.id != red.id]
+    copied = isinstance(arg, ast.Call) and call_attr(arg) in ("copy", "deepcopy")
+    if stale and (copied or not isinstance(red, ast.Name) or red.id == "_" or (argname and argname != norm(red))):
+        ctx.fail("fid.reduced-reference", m, stale[0],
+                 f"inner_product reads `{short(stale[0].value)}` after `{short(inv[0], 70)}`: that is the first state as it was given, not the reduced tableau inverse_circuit "
+                 f"returned; the sign test for orthogonality is then made against generators that have nothing to do with the transformed second state "
+                 f"(fidelity(<-Z>, <-Z>) = 0, fidelity(|1>, |0>) = 1)", func="inner_product", construct="inner_product: state 1 read from the unreduced tableau")
+    else:
+        ctx.ok("fid.reduced-reference", m, first[0], what="state 1 is read from the tableau inverse_circuit returned")
+
+
 def rule_canon_reduced(ctx: Ctx) -> None:
     """canon.reduced: canonical_form is the *reduced* echelon form (that is what makes it unique, hence usable for equality): after
     a pivot is chosen in a column, the pivot row is multiplied into every other row that has the pivot's Pauli in that column —
@@ -292,6 +324,7 @@ def _x_of_second(fn, e) -> bool:
 
 
 def run(ctx: Ctx) -> None:
+    rule_reduced_reference(ctx)
     from ..rules import tableau as _tbx
     _tbx.rule_xz_rowops(ctx, ["graphiq/backends/stabilizer/functions/linalg.py", "graphiq/backends/stabilizer/functions/stabilizer.py"])
     rule_eq_returns(ctx)
@@ -373,6 +406,7 @@ _G_VECTOR = ("    x1, z1 = x_matrix[row_to_add], z_matrix[row_to_add]\n"
 
 
 KNOCKOUTS = [
+    Knockout("inner-product-reads-unreduced-first-state", METRIC, sub_once("    stabilizer_tableau1, circ = inverse_circuit(stabilizer_tableau1)\n", "    _, circ = inverse_circuit(stabilizer_tableau1.copy())\n"), "fid.reduced-reference", "unreduced"),
     Knockout("row-sum-vectorised-z-term-halved", "graphiq/backends/stabilizer/functions/linalg.py", sub_once(_G_LOOP, _G_VECTOR), "prim.row-sum", "vectorised phase term"),
     Knockout("stabilizer-tableau-eq-or", TABLEAU, sub_once("            return np.all(self.phase == other.phase) and np.array_equal(", "            return np.all(self.phase == other.phase) or np.array_equal("), "eq.decision", "StabilizerTableau.__eq__"),
     Knockout("clifford-tableau-eq-drops-iphase", CTABLEAU, sub_once("                and np.all(self.iphase == other.iphase)\n", ""), "eq.decision", "CliffordTableau.__eq__"),
